@@ -82,12 +82,12 @@ class Facts:
             elif k == 'if':
                 out += self.cond_atoms(c['cond'], c['pol'], c['scope'], fw)
             elif k == 'iflet':
-                out.append(self.pat_atom(c['pat'], c['expr'], c['pol'], c['scope'], fw))
+                out += expand_some(self.pat_atom(c['pat'], c['expr'], c['pol'], c['scope'], fw))
             elif k == 'arm':
                 if c['pat']['k'] == 'Wild' or (c['pat']['k'] == 'Ident' and not c['pat']['name'][:1].isupper()):
                     out.append(('arm-else', tm.term(c['scrut'], c['scope']), tuple(pat_s(p) for p in c['earlier'])))
                 else:
-                    out.append(self.pat_atom(c['pat'], c['scrut'], True, c['scope'], fw))
+                    out += expand_some(self.pat_atom(c['pat'], c['scrut'], True, c['scope'], fw))
                 if c.get('guard') is not None:
                     out.append(('cond', es(c['guard']), True))
                 for pred in c.get('cfg') or []:
@@ -359,3 +359,18 @@ def atom_s(a):
     if h == 'cond':
         return ('' if a[2] else '!') + '(' + a[1] + ')'
     return str(a)[:120]
+
+
+def expand_some(a):
+    """`Some(_) = (if let Some(_) = A { if let Some(_) = B { Some(v) } else { None } } else { None })` holds iff A and B are both `Some`
+    (an `Option`-returning helper written with `?`, inlined): one atom per link of the chain.  Negated, the atom stays as it is."""
+    if not (isinstance(a, tuple) and a and a[0] == 'some' and a[-1] is True):
+        return [a]
+    t = a[1]
+    out = []
+    while isinstance(t, tuple) and len(t) == 5 and t[0] == 'iflet' and t[4] in (('None',), t[2]) and isinstance(t[1], str) and t[1].startswith('Some('):
+        out.append(('some', t[2], True))
+        t = t[3]
+    if out and isinstance(t, tuple) and t and t[0] == 'Some':
+        return out
+    return [a]
